@@ -59,6 +59,12 @@ CLAIMED = {
             "rejects short draws (exact count for every request including 0), and that reseed/next/check_leading_zeros/draw "
             "have the documented shapes. Statistical quality is not decided.",
             "rustc MIR; effect table for std/core/rayon leaves; hash functions behave as functions", "DESIGN.md section 4, C20"),
+    "C24": ("MIR field-to-result provenance over the to_elements chain, interval proof of bit-packing disjointness from struct-field invariants, guard re-verification on every Context construction path",
+            "Decides that each listed context parameter is a field flowing into the seed element vector, proves (for all field values "
+            "admitted by the constructors) that every `buf << k | x` packing step has x < 2^k and loses no bits, that the layout "
+            "branch is decided by a packed value, and that narrowing `as u32` casts are in range on every construction path of "
+            "Context. The zero-padding of variable-length fields without their length is reported (two known findings).",
+            "rustc MIR; interval engine; injectivity of E::from(u32) on values < 2^32 (C11)", "DESIGN.md section 4, C24"),
     "C25": ("MIR provenance of stored security values (cmp::min with the collision-resistance parameter) and must-pass-through guards per match arm of AcceptableOptions::validate",
             "Proves for all inputs that stored conjectured/proven security values are results of cmp::min(_, collision_resistance) "
             "(and conjectured = min(field_security, _) - 1), and decides that each validate arm accepts only behind "
